@@ -40,7 +40,7 @@ Definition uf_read_guard (s : uf) (n : Z) : bool :=
 Definition uf_write_guard (s : uf) : bool :=
   u_abort s || (u_tellp s - u_tellg s <? u_buf s).
 Definition uf_writec_guard (s : uf) : bool :=
-  u_abort s || ((u_tellp s - u_tellg s) mod 4294967296 <? u_buf s).     (* static_cast<uint32_t> *)
+  u_abort s || (u_tellp s - u_tellg s <? u_buf s).
 
 (* ---- read ---- *)
 Definition slice (off len : Z) (l : list Z) : list Z := firstn (Z.to_nat len) (skipn (Z.to_nat off) l).
